@@ -13,7 +13,10 @@
 // the call must be the whole right-hand side of an assignment / definition,
 // an expression statement, the whole operand of a return, or the whole (or
 // negated) condition of an if; the callee must be non-generic, non-variadic,
-// not recursive, and free of defer / recover / goto and labelled statements.
+// not recursive, and free of recover / goto and labelled statements; a defer is
+// accepted when it is an unconditional, argument-less call at the top level of
+// the body (`defer mu.Unlock()`): the call is then made explicitly on every way
+// out behind it.
 // Everything else is left alone (and listed), in which case the rules see
 // the call as they would have before.
 package inl
@@ -341,7 +344,9 @@ func eligibility(fd *ast.FuncDecl, obj *types.Func) string {
 			// defers / returns inside literals belong to the literal
 			return false
 		case *ast.DeferStmt:
-			reason = "contains defer"
+			if !simpleDefer(fd, x) {
+				reason = "contains a defer other than an unconditional argument-less call"
+			}
 		case *ast.LabeledStmt:
 			reason = "contains a labelled statement"
 		case *ast.BranchStmt:
@@ -364,6 +369,36 @@ func eligibility(fd *ast.FuncDecl, obj *types.Func) string {
 		}
 	}
 	return ""
+}
+
+// simpleDefer: d is a statement of the function body's own statement list
+// (so it runs unconditionally, once) and defers an argument-less call of a
+// function or method named through identifiers and selectors only
+// (`mu.Unlock()`, `s.wg.Done()`): nothing is evaluated at the defer statement
+// that could differ at the point where the call is made.
+func simpleDefer(fd *ast.FuncDecl, d *ast.DeferStmt) bool {
+	top := false
+	for _, st := range fd.Body.List {
+		if st == ast.Stmt(d) {
+			top = true
+		}
+	}
+	if !top || len(d.Call.Args) != 0 {
+		return false
+	}
+	var pure func(e ast.Expr) bool
+	pure = func(e ast.Expr) bool {
+		switch x := e.(type) {
+		case *ast.Ident:
+			return true
+		case *ast.SelectorExpr:
+			return pure(x.X)
+		case *ast.ParenExpr:
+			return pure(x.X)
+		}
+		return false
+	}
+	return pure(d.Call.Fun)
 }
 
 // expandCallee rewrites the body of a new function itself (nested helpers).
@@ -910,6 +945,40 @@ func (in *inliner) expand(pk *packages.Package, file *ast.File, st *site, ownerD
 			return true
 		})
 	}
+	// unconditional `defer x.y.Unlock()`-style statements at the top level of
+	// the body: the call is made explicitly on every way out that lies behind
+	// the defer statement (after the results have been assigned, as the
+	// language does; what differs is a panic, which the rules do not model)
+	var defers []*ast.DeferStmt
+	{
+		var keep []ast.Stmt
+		for _, st := range body.List {
+			if d, ok := st.(*ast.DeferStmt); ok {
+				defers = append(defers, d)
+				continue
+			}
+			keep = append(keep, st)
+		}
+		body.List = keep
+	}
+	deferredCalls := func(at token.Pos, all bool) []ast.Stmt {
+		var out []ast.Stmt
+		for i := len(defers) - 1; i >= 0; i-- {
+			d := defers[i]
+			if !all && !(d.Pos() < at) {
+				continue
+			}
+			call := cloneNode(d.Call, func(orig, cp *ast.Ident) {
+				o := orig
+				if in.origOf[o] != nil {
+					o = in.origOf[o]
+				}
+				in.origOf[cp] = o
+			}).(*ast.CallExpr)
+			out = append(out, &ast.ExprStmt{X: call})
+		}
+		return out
+	}
 	okRet := true
 	rewriteReturns(body, func(r *ast.ReturnStmt) []ast.Stmt {
 		var out []ast.Stmt
@@ -931,6 +1000,7 @@ func (in *inliner) expand(pk *packages.Package, file *ast.File, st *site, ownerD
 		default:
 			okRet = false
 		}
+		out = append(out, deferredCalls(r.Pos(), false)...)
 		out = append(out, &ast.BranchStmt{Tok: token.BREAK, Label: ast.NewIdent(label)})
 		return out
 	})
@@ -954,6 +1024,7 @@ func (in *inliner) expand(pk *packages.Package, file *ast.File, st *site, ownerD
 			}
 		}
 	}
+	inner = append(inner, deferredCalls(token.NoPos, true)...)
 	inner = append(inner, &ast.BranchStmt{Tok: token.BREAK, Label: ast.NewIdent(label)})
 	sw := &ast.LabeledStmt{Label: ast.NewIdent(label), Stmt: &ast.SwitchStmt{Body: &ast.BlockStmt{List: []ast.Stmt{&ast.CaseClause{Body: []ast.Stmt{&ast.BlockStmt{List: inner}}}}}}}
 	pre = append(pre, sw)
